@@ -232,7 +232,8 @@ FIXED_POINT_CELLS = [
 # an absolute target is the whole percent-decoded value of the key: it ends at the next '&' (a raw '#' belongs to it)
 ABSOLUTE_TARGETS = {"http://a.com/r?url=http://b.org/x#frag": "http://b.org/x#frag", "http://a.com/r?next=https%3A%2F%2Fb.org%2Fapp%23inbox&z=1": "https://b.org/app#inbox", "https://app.a.com/#/login?redirect=/#/dashboard": "https://app.a.com/#/dashboard",
                     "http://a.com/r?url=http%3A%2F%2Fb.org%2Fx": "http://b.org/x"}
-JOINED_TARGETS = {"http://a.com/r?url=%2Fx": "http://a.com/x", "http://a.com?u=%2Fx": "http://a.com/x", "http://a.com#x/?u=%2Fy": "http://a.com/y", "http://a.com?page=2#&url=/x": "http://a.com/x", "http://a.com/r?u=/x&v=1": "http://a.com/x"}
+JOINED_TARGETS = {"http://a.com/r?url=%2Fx": "http://a.com/x", "http://a.com?u=%2Fx": "http://a.com/x", "http://a.com#x/?u=%2Fy": "http://a.com/y", "http://a.com?page=2#&url=/x": "http://a.com/x", "http://a.com/r?u=/x&v=1": "http://a.com/x",
+                  "a.com/r?url=%2Fx": "a.com/x", "//a.com/r?url=/x": "//a.com/x", "a.com?url=/": "a.com/"}
 
 
 def fixed_point_table(ctx, rule):
@@ -243,7 +244,7 @@ def fixed_point_table(ctx, rule):
     ref = mod.func("infer_redirection")
     site = mod.site(ref.node)
     n = 0
-    for u in FIXED_POINT_CELLS + [c for c in sorted(ABSOLUTE_TARGETS) if c not in FIXED_POINT_CELLS]:
+    for u in FIXED_POINT_CELLS + [c for c in sorted(ABSOLUTE_TARGETS) + sorted(JOINED_TARGETS) if c not in FIXED_POINT_CELLS]:
         try:
             r = run_function(repo, ref, [u])
             again = run_function(repo, ref, [r]) if isinstance(r, str) else None
